@@ -125,7 +125,7 @@ Qed.
 Definition decode_bt (a : args) (constants : list const) (fl4 : list flag)
   : res (option function * list flag) :=
   match filter (fun f => flag_mem f fl4) FN_FLAGS with
-  | [] => if negb (args_len a =? 0) then Err AssertionError else OK (None, fl4)
+  | [] => if negb (args_len a =? 0) then Err ValueError else OK (None, fl4)
   | [_; _] =>
       let docstring := match constants with
                        | KInner (IStr s) :: _ => Some s
